@@ -200,6 +200,12 @@ def check_setups(seed):
     for k, v in want.items():
         if getattr(f, k) != v:
             return f"FCNAgent.setup: {k} = {getattr(f, k)}, configured {v} (configuration {cfg})"
+    # a randomised time window without meanReversionTime: the mean reversion time defaults to the window THIS agent drew (one draw, not a second one)
+    f2 = FCNAgent(agent_id=3, prng=random.Random(seed + 17), simulator=sim, name="f2")
+    cfg2 = dict(cfg); cfg2.pop("meanReversionTime", None); cfg2["timeWindowSize"] = [100, 200]
+    f2.setup(cfg2, [0])
+    if not (100 <= f2.time_window_size <= 200) or f2.mean_reversion_time != f2.time_window_size:
+        return f"FCNAgent.setup: timeWindowSize [100, 200] without meanReversionTime gave time_window_size {f2.time_window_size}, mean_reversion_time {f2.mean_reversion_time} (default: the agent's own window)"
     mm = MarketMakerAgent(agent_id=1, prng=random.Random(seed), simulator=sim, name="mm")
     with_len = rng.random() < 0.5
     cfg = dict(base, targetMarket="m1", netInterestSpread=vals["netInterestSpread"])
